@@ -59,10 +59,10 @@ l = ["# excluded environment of events_alternate: SC is not a status reply", f"l
 l += visit("ll", 0, "sc") + ["ll.stations"] + sweep("ll", {}, 1) + ["ll.env -"] + visit("ll", 0) + ["ll.stations"]
 write("03_sc_reply.ops", l)
 
-# 4. FINDING K_C18_scanner_stale: peripheral 0 found, then the address keeps answering but not with a
+# 4. regression of K_C18_scanner_stale (fixed in c0f8a92): peripheral 0 found, then the address keeps answering but not with a
 #    diagnostics response (here: SC; an RS response has the same effect) -> never reported lost
 own = 2
-l = ["# finding witness: stale DP peripheral", f"sc.new {own}", "sc.env 0:g"]
+l = ["# regression (former finding K_C18_scanner_stale, fixed in c0f8a92): stale DP peripheral is reported lost", f"sc.new {own}", "sc.env 0:g"]
 l += sweep("sc", {0: diag(own, 0)}) + ["sc.env 0:m"]
 l += sweep("sc", {0: "sc"}) + sweep("sc", {0: status(own, 0, 3).replace("r.3.0", "r.3.3")}) + ["sc.take"]
 write("04_scanner_stale.ops", l)
